@@ -664,7 +664,7 @@ class Hugr(Mapping[Node, NodeData], Generic[OpVarCov]):
 
     def _to_serial(self) -> SerialHugr:
         """Serialize the HUGR."""
-        node_it = (node for node in self._nodes if node is not None)
+        node_it = [node for node in self._nodes if node is not None]
 
         def _serialize_link(
             link: tuple[_SO, _SI],
